@@ -6,13 +6,16 @@ import "github.com/zeromicro/go-zero/core/syncx"
 
 // Accessors for the C13 harness (package internal cannot be imported by the
 // harness module; see core/discov/verif_c13.go).  No behaviour of their own.
+// They are methods of *Registry so that the re-export file in core/discov can reach
+// them through an interface assertion (the instrumenter type-checks that package
+// against export data built without the added files).
 
 // VerifReload runs cluster.reload for the cluster of the given endpoints with its
 // client: exactly what the connection-state listener installed by
 // cluster.watchConnState starts (`go c.reload(cli)`) when the connection comes
 // back.  It runs synchronously; the caller provides the goroutine.
-func VerifReload(endpoints []string) bool {
-	c, ok := GetRegistry().getCluster(endpoints)
+func (r *Registry) VerifReload(endpoints []string) bool {
+	c, ok := r.getCluster(endpoints)
 	if !ok {
 		return false
 	}
@@ -26,9 +29,9 @@ func VerifReload(endpoints []string) bool {
 
 // VerifResetRegistry gives the process a fresh registry and connection manager
 // (both are package globals keyed by the endpoints).
-func VerifResetRegistry() {
-	registry.lock.Lock()
-	registry.clusters = make(map[string]*cluster)
-	registry.lock.Unlock()
+func (r *Registry) VerifResetRegistry() {
+	r.lock.Lock()
+	r.clusters = make(map[string]*cluster)
+	r.lock.Unlock()
 	connManager = syncx.NewResourceManager()
 }
